@@ -53,6 +53,56 @@ Theorem C16_model_satisfies_oracle : forall idx0 rs h,
   (U h (res s) <= 1)%nat /\ (mem h idx0 = true -> U h (res s) = 0%nat).
 Proof. exact model_answers. Qed.
 
+(* refinement obligation discharged by the atomic storePack (pending removed and index entry added in
+   ONE critical section = the single event EPack): at every instant of a session, a handle that was
+   accepted, is in a packer or is about to be stored is pending or indexed *)
+Theorem C16_accepted_always_known : forall idx0 evs h, no_clear evs ->
+  let s := run (init idx0) evs in
+  ((1 <= U h (res s))%nat \/ (1 <= cnt h (packer s))%nat \/ (1 <= cnt h (tick s))%nat
+   \/ (1 <= cnt h (dupq s))%nat \/ (1 <= firsts h (log s))%nat) ->
+  known s h = true.
+Proof. exact accepted_always_known. Qed.
+
+Theorem C16_requested_accepted_once : forall idx0 evs h, no_clear evs ->
+  let s := run (init idx0) evs in
+  (1 <= calls h (res s))%nat -> mem h idx0 = false -> U h (res s) = 1%nat.
+Proof. exact requested_accepted_once. Qed.
+
+(* splitting storePack into "remove pending" and "insert into index" is outside the model: with the two
+   halves as separate events the obligation and store-once are false (explicit schedule) *)
+Theorem C16_split_storepack_breaks :
+  let evs := [XE (EAdd 7%N false); XE (EStoreT 7%N); XRemovePending [7%N];
+              XE (EAdd 7%N false); XInsertPack [7%N]; XE (EStoreT 7%N); XE (EPack [7%N])] in
+  let mid := xrun (init []) (firstn 3 evs) in
+  let s := xrun (init []) evs in
+  ((1 <= U 7%N (res mid))%nat /\ known mid 7%N = false)
+  /\ U 7%N (res s) = 2%nat /\ firsts 7%N (log s) = 2%nat /\ cnt 7%N (idx s) = 2%nat.
+Proof. exact split_storepack_breaks. Qed.
+
+Theorem C16_oracle_stress : forall r hn maxu never, check_C16 (CStress r hn maxu never) = true <->
+  (maxu <= 1)%N /\ never = 0%N.
+Proof. exact check_C16_stress. Qed.
+
+(* backup runs (nobody asks for duplicates): after the flush every blob has its old index entries plus
+   exactly one new entry iff it was requested and not indexed before *)
+Theorem C16_backup_entries : forall idx0 evs h, no_clear evs -> no_dup evs ->
+  let s := run (init idx0) evs in
+  tick s = [] -> dupq s = [] -> packer s = [] ->
+  cnt h (idx s) = (cnt h idx0 + (if mem h idx0 then 0 else Nat.min 1 (calls h (res s))))%nat.
+Proof. exact backup_entries. Qed.
+
+Theorem C16_oracle_cli : forall idx0 cs newblobs final, check_C16 (CCli idx0 cs newblobs final) = true <->
+  newblobs = expected_new idx0 cs /\
+  Forall (fun h => lookup h final = N.of_nat (cnt h idx0 + (if mem h cs && negb (mem h idx0) then 1 else 0)))
+         (nodup_n (idx0 ++ cs ++ map fst final)).
+Proof. exact check_C16_cli. Qed.
+
+Print Assumptions C16_backup_entries.
+Print Assumptions C16_oracle_cli.
+Print Assumptions C16_accepted_always_known.
+Print Assumptions C16_requested_accepted_once.
+Print Assumptions C16_split_storepack_breaks.
+Print Assumptions C16_oracle_stress.
 Print Assumptions C16_store_once.
 Print Assumptions C16_known_answers.
 Print Assumptions C16_calls_are_requests.
